@@ -61,79 +61,21 @@ def generic_ops(d):
 def class_legs(work, tier, seed):
     """C01 'in every diagram class': diagrams of the circuit, zx, tensor, biclosed and cartesian classes are built from
     the states of the other checks' TLC models and put through the generic API; the hook records what is constructed."""
-    from harness import qadapt, tlaval
-    from harness.project import DiagramSink, proj_diagram
-    from harness.checks import c18, c19
-    rnd = core.rng(seed, "C01-classes")
-    n = 120 if tier == "quick" else 3000
+    from harness import classgen
+    from harness.project import DiagramSink
     sink = DiagramSink().install()
     counts = {}
     try:
-        cq = core.run_model("MC_CQ", work, spec="MSpec", constants={"MaxQ": 0, "MaxLayers": 0, "Phases": "<- PhasesQ",
-                                                                     "MaxWeight": 4, "MaxMLayers": 2}, dump=True, tag="_cls")
-        mcs = [st["mc"] for st in tlaval.read_dump(cq["dump"]) if st["mc"]["layers"]]
-        os.remove(cq["dump"])
-        done = 0
-        for mc in rnd.sample(mcs, min(n, len(mcs))):
-            try:
-                d = qadapt.mixed_circuit(mc)
-            except Exception:
-                continue
-            done += len(generic_ops(d))
-        counts["circuit"] = done
-        zx = core.run_model("MC_ZX", work, spec="ZSpec", constants={"MaxQ": 0, "MaxLayers": 0, "Phases": "<- PhasesQ", "Halving": "TRUE",
-                                                                     "ZMaxW": 2, "ZMaxBoxes": 2}, dump=True, tag="_cls")
-        zds = [st["zd"] for st in tlaval.read_dump(zx["dump"]) if st["zd"]["layers"]]
-        os.remove(zx["dump"])
-        done = 0
-        for zd in rnd.sample(zds, min(n, len(zds))):
-            try:
-                d = qadapt.zx_diagram(zd)
-            except Exception:
-                continue
-            done += len(generic_ops(d))
-        counts["zx"] = done
-        ca = core.run_model("MC_Cartesian", work, constants={"MaxBoxes": 3, "MaxWidth": 3, "Inputs": "<- InputsV"}, dump=True, tag="_cls")
-        cds = [st["d"] for st in tlaval.read_dump(ca["dump"]) if st["d"]["boxes"]]
-        os.remove(ca["dump"])
-        B = c19.boxes()
-        done = 0
-        for k, dabs in enumerate(rnd.sample(cds, min(n, len(cds)))):
-            try:
-                d = c19.build(dabs, B, k % 2)
-            except Exception:
-                continue
-            done += len(generic_ops(d))
-        counts["cartesian"] = done
-        bc = core.run_model("MC_Biclosed", work, constants={"Depth": 1}, dump=True, tag="_cls")
-        insts = [st["inst"] for st in tlaval.read_dump(bc["dump"])]
-        os.remove(bc["dump"])
-        from discopy import biclosed
-        done = 0
-        for inst in rnd.sample(insts, min(n, len(insts))):
-            try:
-                box = c18.make_box(inst)
-                if box is None:
+        for cls, descs in classgen.pools(work, tier, seed).items():
+            done = 0
+            for desc in descs:
+                try:
+                    d = classgen.build(desc)
+                except Exception:
                     continue
-                d = biclosed.Id(box.dom) >> box >> biclosed.Id(box.cod)
-            except Exception:
-                continue
-            done += len(generic_ops(d)) + len(generic_ops(d @ biclosed.Id(box.dom[:1])))
-        counts["biclosed"] = done
-        from discopy import tensor
-        from discopy.tensor import Dim
-        import numpy as np
-        done = 0
-        for k in range(min(n, 200)):
-            dims = [rnd.choice([1, 2, 3]) for _ in range(rnd.randrange(0, 3))]
-            a, b = Dim(*dims), Dim(*[rnd.choice([2, 3]) for _ in range(rnd.randrange(0, 3))])
-            size = int(np.prod(list(a) + list(b) + [1]))
-            f = tensor.Box("f", a, b, list(range(size)))
-            g = tensor.Box("g", b, a, list(range(size)))
-            d = f @ tensor.Id(Dim(2)) >> g @ tensor.Id(Dim(2)) if k % 2 else \
-                tensor.Id(a) @ tensor.Spider(1, 2, 2) >> f @ tensor.Id(Dim(2, 2))
-            done += len(generic_ops(d))
-        counts["tensor"] = done
+                if d is not None:
+                    done += len(generic_ops(d))
+            counts[cls] = done
     finally:
         sink.uninstall()
     EXTRA_HOOK_ROWS.extend(sink.seen.values())
